@@ -19,6 +19,7 @@ import (
 type Baseline struct {
 	Note        string              `json:"note"`
 	Obligations map[string][]string `json:"obligations"` // property -> obligation names that discharge on the pinned tree
+	Unproved    map[string][]string `json:"unproved"`    // property -> obligations generated on the pinned tree that did not enter the baseline
 }
 
 type KnownFinding struct {
@@ -47,6 +48,9 @@ func loadBaseline(root string) *Baseline {
 	}
 	if b.Obligations == nil {
 		b.Obligations = map[string][]string{}
+	}
+	if b.Unproved == nil {
+		b.Unproved = map[string][]string{}
 	}
 	return b
 }
@@ -236,7 +240,11 @@ func report(root, prop, tier string, seed int, res *checkResult, base *Baseline,
 		baseStem[stem(n)] = true
 	}
 	// a contract clause that is in the baseline must hold at every program point it applies to: an obligation of a
-	// contract-level kind generated at a new return / new site of the same clause counts as a baseline obligation
+	// contract-level kind generated at a new return / new site of the same clause counts as a baseline obligation,
+	// unless some site of that clause was already unproved on the pinned tree (then a new site stays undecided)
+	for _, n := range base.Unproved[prop] {
+		delete(baseStem, stem(n))
+	}
 	for _, o := range res.obls {
 		switch o.Kind {
 		case "post", "frame", "at", "inv-init", "inv-pres", "dec":
@@ -511,6 +519,7 @@ func cmdBaseline(args []string) {
 	repo := fs.String("repo", "/repo", "repository")
 	props := fs.String("props", "", "comma separated property ids (default: all mentioned in contracts)")
 	seeds := fs.Int("seeds", 2, "number of seeds each obligation must survive")
+	fill := fs.Bool("fill-unproved", false, "do not solve: keep the recorded baseline and only record the generated obligations that are not in it")
 	fs.Parse(args)
 	root := verifRoot()
 	e, err := LoadEngine(*repo, nil)
@@ -529,8 +538,27 @@ func cmdBaseline(args []string) {
 	for _, p := range plist {
 		good := map[string]int{}
 		total := 0
+		var lastObls []*Obligation
+		if *fill {
+			// keep the recorded baseline; only list what is generated beyond it
+			for _, n := range base.Obligations[p] {
+				good[n] = *seeds
+			}
+			res := runProperty(e, p, SolverCfg{Timeout: time.Second, Workers: runtime.NumCPU(), NoSolve: true})
+			var unproved []string
+			for _, o := range res.obls {
+				if o.Kind != "vacuity" && o.Kind != "cover" && good[o.Name] == 0 {
+					unproved = append(unproved, o.Name)
+				}
+			}
+			sort.Strings(unproved)
+			base.Unproved[p] = unproved
+			fmt.Printf("%s: %d unproved obligations recorded\n", p, len(unproved))
+			continue
+		}
 		for s := 0; s < *seeds; s++ {
 			res := runProperty(e, p, SolverCfg{Timeout: 10 * time.Second, Workers: runtime.NumCPU(), Seed: s})
+			lastObls = res.obls
 			total = 0
 			for _, o := range res.obls {
 				if o.Kind == "vacuity" || o.Kind == "cover" {
@@ -551,6 +579,17 @@ func cmdBaseline(args []string) {
 		}
 		sort.Strings(names)
 		base.Obligations[p] = names
+		var unproved []string
+		for _, o := range lastObls {
+			if o.Kind == "vacuity" || o.Kind == "cover" {
+				continue
+			}
+			if good[o.Name] != *seeds {
+				unproved = append(unproved, o.Name)
+			}
+		}
+		sort.Strings(unproved)
+		base.Unproved[p] = unproved
 		fmt.Printf("%s: %d of %d obligations enter the baseline\n", p, len(names), total)
 	}
 	os.MkdirAll(filepath.Join(root, "baseline"), 0o755)
